@@ -120,6 +120,49 @@ theorem readRef1 (p : Enc) (st : St) (i : Nat) (r : Bytes) (h : i < 2 ^ 31) :
     readMany readRefV 1 st (p.nat i ++ r) = some ([.ref i], st.noteRef i, r) := by
   simp [readMany, readRefV, readNat p i r h, asIndex_nat]
 
+theorem readMemberValue_arr (p : Enc) (fuel : Nat) (st : St) (m : Member) (n : Nat) (b : Bytes)
+    (hm : Havok.isArray m.ty = true) (hn : n < 2 ^ 31) (hl : n ≤ b.length) :
+    readMemberValue fuel st m (p.nat n ++ b) =
+      (readArray fuel st m n b).map fun (l, st, b) => (.arr l, st, b) := by
+  simp only [readMemberValue, hm, if_true, readNat p n _ hn, asIndex_nat]
+  rw [if_neg (by omega)]
+
+theorem readMemberValue_str (fuel : Nat) (st : St) (m : Member) (b : Bytes) (hm : m.ty = 10) :
+    readMemberValue fuel st m b = readStringV st b := by
+  simp [readMemberValue, hm, Havok.isArray]
+
+theorem nat_length_pos (p : Enc) (n : Nat) : 1 ≤ (p.nat n).length := int_length_pos p n
+
+theorem le_append_left (a b : Bytes) (n : Nat) (h : n ≤ a.length) : n ≤ (a ++ b).length := by
+  simp only [List.length_append]; omega
+
+theorem le_append_right (a b : Bytes) (n : Nat) (h : n ≤ b.length) : n ≤ (a ++ b).length := by
+  simp only [List.length_append]; omega
+
+theorem ints_length (p : Enc) : ∀ l : List Int, l.length ≤ ((l.map p.int).flatten).length := by
+  intro l
+  induction l with
+  | nil => simp
+  | cons a t ih =>
+    have := int_length_pos p a
+    simp only [List.map_cons, List.flatten_cons, List.length_cons, List.length_append]
+    omega
+
+theorem vecs_length : ∀ l : List (List UInt32), (∀ v ∈ l, v.length = 12) →
+    l.length ≤ ((l.map fun v => (v.map f32le).flatten).flatten).length := by
+  intro l
+  induction l with
+  | nil => intro _; simp
+  | cons a t ih =>
+    intro h
+    have ha := h a (by simp)
+    have ht := ih (fun v hv => h v (by simp [hv]))
+    have : 1 ≤ ((a.map f32le).flatten).length := by
+      match a, ha with
+      | x :: _, _ => simp only [List.map_cons, List.flatten_cons, List.length_append, f32le, putU32le_length]; omega
+    simp only [List.map_cons, List.flatten_cons, List.length_cons, List.length_append]
+    omega
+
 /-- the root container: one named variant -/
 theorem readRoot (p : Enc) (fuel : Nat) (st : St) (hst : st.types = stdHTypes) (vn r : Bytes)
     (hvn : okString vn = true) :
@@ -138,8 +181,8 @@ theorem readRoot (p : Enc) (fuel : Nat) (st : St) (hst : st.types = stdHTypes) (
     std_get 1 hRoot st hst rfl]
   rw [show hRoot.all.length = 1 from rfl, bf [true] 1 _ rfl (by decide)]
   rw [show hRoot.all = [⟨n_namedVariants, 0x19, 0, some n_hkRootLevelContainerNamedVariant⟩] from rfl]
-  simp only [readMembers, if_true, readMemberValue, show Havok.isArray 0x19 = true from rfl,
-    readNat p 1 _ (by decide), asIndex_nat]
+  simp only [readMembers, if_true]
+  rw [readMemberValue_arr p _ _ _ 1 _ rfl (by decide) (le_append_left _ _ 1 (by decide))]
   rw [readArray_struct _ _ _ _ _ n_hkRootLevelContainerNamedVariant hNamedVariant rfl rfl
     (std_find st hst _ _ rfl)]
   rw [show hNamedVariant.all.length = 3 from rfl, bf [true, true, true] 3 _ rfl (by decide)]
@@ -168,10 +211,10 @@ theorem readContainer (p : Enc) (fuel : Nat) (st : St) (hst : st.types = stdHTyp
     ⟨n_skeletons, 0x18, 0, some n_hkaSkeleton⟩, ⟨n_animations, 0x18, 0, some n_hkaAnimation⟩,
     ⟨n_bindings, 0x18, 0, some n_hkaAnimationBinding⟩, ⟨n_attachments, 0x18, 0, some n_hkaBoneAttachment⟩,
     ⟨n_skins, 0x18, 0, some n_hkaMeshBinding⟩] from rfl]
-  simp only [readMembers, if_true, Bool.false_eq_true, if_false, readMemberValue,
-    show Havok.isArray 0x18 = true from rfl, readNat p 1 _ (by decide), asIndex_nat,
+  simp only [readMembers, if_true, Bool.false_eq_true, if_false,
     show ∀ s : St, defaultValue s 2 = some (.int 0, s) from fun _ => rfl,
     show ∀ s : St, defaultValue s 0x18 = some (.arr [], s) from fun _ => rfl, Option.map_some]
+  rw [readMemberValue_arr p _ _ _ 1 _ rfl (by decide) (le_append_left _ _ 1 (nat_length_pos p _))]
   rw [readArray_ref _ _ _ _ _ rfl, readRef1 p _ 3 r (by decide)]
   simp [St.noteRef]
 
@@ -211,19 +254,23 @@ theorem readSkeleton (p : Enc) (fuel : Nat) (st : St) (hst : st.types = stdHType
     ⟨n_referencePose, 0x16, 0, none⟩, ⟨n_referenceFloats, 0x13, 0, none⟩, ⟨n_floatSlots, 0x1a, 0, none⟩,
     ⟨n_localFrames, 0x19, 0, some n_hkaSkeletonLocalFrameOnBone⟩,
     ⟨n_partitions, 0x19, 0, some n_hkaSkeletonPartition⟩] from rfl]
-  simp only [readMembers, if_true, Bool.false_eq_true, if_false, readMemberValue,
-    show Havok.isArray 10 = false from rfl, show Havok.isArray 0x12 = true from rfl,
-    show Havok.isArray 0x19 = true from rfl, show Havok.isArray 0x16 = true from rfl,
-    show ((10 : Nat) == 1) = false from rfl, show ((10 : Nat) == 2) = false from rfl,
-    show ((10 : Nat) == 3) = false from rfl, show ((10 : Nat) == 10) = true from rfl,
-    readStringV, readString_enc p st name _ hname, readNat p n _ hn, asIndex_nat,
+  simp only [readMembers, if_true, Bool.false_eq_true, if_false,
     show ∀ s : St, defaultValue s 2 = some (.int 0, s) from fun _ => rfl,
     show ∀ s : St, defaultValue s 0x13 = some (.arr [], s) from fun _ => rfl,
     show ∀ s : St, defaultValue s 0x1a = some (.arr [], s) from fun _ => rfl,
     show ∀ s : St, defaultValue s 0x19 = some (.arr [], s) from fun _ => rfl, Option.map_some]
+  -- name
+  rw [readMemberValue_str _ _ _ _ rfl]
+  simp only [readStringV, readString_enc p st name _ hname, Option.map_some]
+  -- parentIndices
+  rw [readMemberValue_arr p _ _ _ n _ rfl hn
+    (le_append_right _ _ n (le_append_left _ _ n (by rw [← hparents]; exact ints_length p parents)))]
   rw [readArray_int _ { st with strings := (encString p st.strings name).2 } _ _ _ rfl hver,
     readInt p kind _ hkind]
-  simp only [Option.map_some, hi _ hpok, readNat p n _ hn, asIndex_nat]
+  simp only [Option.map_some, hi _ hpok]
+  -- bones
+  rw [readMemberValue_arr p _ _ _ n _ rfl hn
+    (le_append_right _ _ n (le_append_right _ _ n (le_append_left _ _ n (by omega))))]
   rw [readArray_struct _ _ _ _ _ n_hkaBone hBone rfl rfl
     (std_find { st with strings := (encString p st.strings name).2 } hst _ _ rfl)]
   rw [show hBone.all.length = 2 from rfl, bf [true, true] 2 _ rfl (by decide)]
@@ -233,7 +280,10 @@ theorem readSkeleton (p : Enc) (fuel : Nat) (st : St) (hst : st.types = stdHType
   rw [readArray_str _ _ _ _ _ rfl, hs _ hnok]
   simp only []
   rw [readArray_byte _ _ _ _ _ rfl, hb]
-  simp only [Option.map_some, readNat p n _ hn, asIndex_nat]
+  simp only [Option.map_some]
+  -- referencePose
+  rw [readMemberValue_arr p _ _ _ n _ rfl hn
+    (le_append_left _ _ n (by rw [← hposes]; exact vecs_length poses hvok))]
   rw [readArray_vec12 _ _ _ _ _ rfl, hv _ hvok]
   simp
 
